@@ -400,7 +400,7 @@ Section Run.
 
   (* main(): an exception out of setup_logging kills the process (traceback, exit 1); one out of
      the try body is logged and answered with {} *)
-  Definition run (i : hin) : result :=
+  Definition hook_run (i : hin) : result :=
     let (s1, crashed) := setup init in
     if crashed then finish s1 1 1
     else
@@ -415,7 +415,7 @@ Definition strip_log (i : hin) : hin :=
   {| h_json_ok := h_json_ok i; h_explicit := h_explicit i; h_mode := h_mode i;
      h_unknown_tool := h_unknown_tool i; h_cfg := filter (fun e => negb (is_log_ev e)) (h_cfg i);
      h_cfg_error := h_cfg_error i; h_route := h_route i |}.
-Definition run_nolog (i : hin) : result := run head nofault [] (strip_log i).
+Definition run_nolog (i : hin) : result := hook_run head nofault [] (strip_log i).
 
 (* what the hook prints, read off main without any logging in it *)
 Definition expected_route (m : mode) (r : route) : list outv :=
